@@ -774,3 +774,338 @@ def build_malformed(mc):
     c._dim = dim_attr
     c.cov = (band_attr, rows)
     return gnet.to_gkf(net)
+
+
+# ====================================================================== shared unknowns
+# Several correlated clusters (band >= 1) that refer to the SAME unknowns, in
+# networks whose design matrix holds explicit zero coefficients inside the
+# correlated clusters.  gama's linearisation stores a coefficient even when it
+# is exactly zero:
+#   distance / direction   sin(bearing) == 0 only for a bearing of exactly 0
+#                          (target has the same y and a larger x); bearings of
+#                          100 / 200 / 300 gon give ~1e-16 (the control class);
+#   s-distance             dx/sd, dy/sd, dz/sd: exactly 0 for every aligned pair
+#   z-angle                k*dz*dx, k*dz*dy: exactly 0 when dz == 0 or dx/dy == 0
+# coordinates, vectors and height differences have coefficients +-1 only.
+#
+# A *multi case* is a dict
+#   atoms  list of atom names (MULTI_ATOMS), in the order they are written
+#   forms  one matrix form per atom:  F0 family 0, full band | F1 family 1,
+#          band 1 | Z diagonal matrix written with band 1 (explicit zero
+#          covariances) | Zf the same with the full band
+#   geom   0: aligned pairs point along +x (bearing 0) | 1: x and y exchanged
+#          (bearing 100 gon: distances / directions lose their exact zeros,
+#          s-distances / z-angles keep them in the other column)
+#   bb     'dist' | 'lin'   uncorrelated backbone that makes the network determined
+#   bpos   0 backbone after the atoms | 1 before | 2 after the first atom
+#   excl   None | [atom position, group, mode]   one excluded group of rows
+M_XY = {"A": (0.0, 0.0), "B": (0.0, 100.0), "C": (120.0, 60.0), "D": (200.0, 0.0),
+        "P": (100.0, 0.0), "Q": (60.0, 100.0)}
+M_Z = {"A": 0.0, "B": 30.0, "C": 10.0, "D": 0.0, "P": 10.0, "Q": 30.0}
+
+# (cluster kind, station, rows); rows of obs: (D direction | S distance | T s-distance | Z z-angle, target)
+MULTI_ATOMS = {
+    "sA": ("obs", "A", [("S", "P"), ("S", "Q")]),               # P.y only zeros
+    "sB": ("obs", "B", [("S", "P"), ("S", "Q")]),               # Q.y only zeros
+    "sC": ("obs", "C", [("S", "P"), ("S", "Q")]),               # no zero (control)
+    "dA": ("obs", "A", [("D", "P"), ("D", "Q"), ("D", "C")]),   # P.x only (-)zeros, orientation unknown
+    "mA": ("obs", "A", [("D", "P"), ("S", "P"), ("D", "Q")]),   # zeros in every column of P, no zero column
+    "sP": ("obs", "P", [("S", "D"), ("S", "A")]),               # P.y: -0.0 and -1.2e-16 (200 gon)
+    "dP": ("obs", "P", [("D", "D"), ("D", "Q"), ("D", "B")]),   # station unknown, one zero in P.x
+    "rA": ("obs", "A", [("S", "P"), ("S", "P")]),               # repeated, P.y only zeros
+    "rP": ("obs", "P", [("S", "D"), ("S", "D"), ("S", "D")]),   # repeated, P.y only -0.0
+    "tA": ("obs", "A", [("T", "P"), ("T", "Q")]),               # s-distances: P.y (geom 1: P.x) only zeros
+    "tB": ("obs", "B", [("T", "Q"), ("T", "P")]),               # Q.y and Q.z only zeros (dz == 0)
+    "zB": ("obs", "B", [("Z", "Q"), ("Z", "P")]),               # z-angles: Q.x and Q.y only zeros (dz == 0)
+    "cxy": ("coordinates", None, [("P", "xy"), ("Q", "xy")]),
+    "cP": ("coordinates", None, [("P", "xyz")]),
+    "cQ": ("coordinates", None, [("P", "z"), ("Q", "xyz")]),
+    "h3": ("height-differences", None, [("A", "P"), ("P", "Q"), ("Q", "B")]),
+    "hr": ("height-differences", None, [("A", "P"), ("P", "A")]),
+    "vAP": ("vectors", None, [("A", "P"), ("P", "Q")]),
+    "vBQ": ("vectors", None, [("B", "Q")]),
+}
+MULTI_MENU = list(MULTI_ATOMS)
+# clusters in which some unknown has only exactly-zero coefficients, per geometry
+MULTI_ZERO_COLUMN = {0: {"sA", "sB", "dA", "rA", "rP", "tA", "tB", "zB"}, 1: {"tA", "tB", "zB"}}
+MULTI_FORMS = ["F0", "F1", "Z", "Zf"]
+OBS_KIND = {"D": "direction", "S": "distance", "T": "s-distance", "Z": "z-angle"}
+
+
+def multi_dim(atom):
+    kind, _, rows = MULTI_ATOMS[atom]
+    if kind == "coordinates":
+        return sum(len(cs) for _, cs in rows)
+    if kind == "vectors":
+        return 3 * len(rows)
+    return len(rows)
+
+
+def multi_linear(atom):
+    return MULTI_ATOMS[atom][0] != "obs"
+
+
+def multi_whitenable(atom):
+    kind, _, rows = MULTI_ATOMS[atom]
+    if kind == "obs":
+        return len(set(rows)) == 1 and rows[0][0] == "S"
+    if kind == "height-differences":
+        return len({frozenset(r) for r in rows}) == 1
+    return False
+
+
+def multi_groups(atom):
+    """groups of rows that can be excluded AND deleted: list of (rows, element index)"""
+    kind, _, rows = MULTI_ATOMS[atom]
+    if kind in ("obs", "height-differences"):
+        return [([s], s) for s in range(len(rows))]
+    out = []; s = 0
+    if kind == "coordinates":
+        for e, (_, cs) in enumerate(rows):
+            if "x" in cs:
+                out.append(([s, s + 1], e)); s += 2
+            if "z" in cs:
+                out.append(([s], e)); s += 1
+        return out
+    return [([3 * e, 3 * e + 1, 3 * e + 2], e) for e in range(len(rows))]
+
+
+def multi_excl_mode(atom, g):
+    """angular observations can only be excluded through their target: the
+    outlier test reads the homogenised right-hand side (DESIGN D10), a gross
+    angle would take its correlated neighbours with it"""
+    kind, _, rows = MULTI_ATOMS[atom]
+    return "point" if (kind == "obs" and rows[g][0] in "DZ") else "blunder"
+
+
+def form_cov(dim, form):
+    """(dense matrix, band written to the input)"""
+    if form == "F0":
+        return dense_cov(dim, dim - 1, 0), dim - 1
+    if form == "F1":
+        return dense_cov(dim, min(1, dim - 1), 1), min(1, dim - 1)
+    if form == "Z":
+        return dense_cov(dim, 0, 0), min(1, dim - 1)
+    if form == "Zf":
+        return dense_cov(dim, 0, 0), dim - 1
+    raise ValueError(form)
+
+
+def _mnoise(atom, row, sigma_unit):
+    """error of a row: depends on the atom and the row only, NOT on the place
+    of the atom in the file (every order adjusts the same observations)"""
+    ai = MULTI_MENU.index(atom)
+    f = 0.5 + 0.1 * ((3 * row + ai) % 7)
+    return SIGNS[ai % 2][(row + 5 * ai) % 12] * f * sigma_unit
+
+
+def build_multi(case):
+    atoms, forms = case["atoms"], case["forms"]
+    geom = case.get("geom", 0)
+    excl = case.get("excl")
+    xy = {k: ((v[1], v[0]) if geom else v) for k, v in M_XY.items()}
+    pts = []
+    for n in ("A", "B", "C", "D"):
+        pts.append(Pt(n, xy[n][0], xy[n][1], M_Z[n], xy="fix", zs="fix"))
+    for n in ("P", "Q"):
+        pts.append(Pt(n, xy[n][0], xy[n][1], M_Z[n], xy="adj", zs="adj"))
+    extra = []
+    tests = []; Cs = []; elems_all = []
+    for ai, (atom, form) in enumerate(zip(atoms, forms)):
+        kind, frm, rows = MULTI_ATOMS[atom]
+        dim = multi_dim(atom)
+        C, band = form_cov(dim, form)
+        sd = [math.sqrt(C[i][i]) for i in range(dim)]
+        ex = set()
+        if excl is not None and excl[0] == ai:
+            ex = set(multi_groups(atom)[excl[1]][0])
+        obs = []; elems = []; s = 0
+        if kind == "obs":
+            for r, (ch, t) in enumerate(rows):
+                knd = OBS_KIND[ch]
+                unit = 1e-4 if ch in "DZ" else 1e-3
+                err = _mnoise(atom, r, sd[r] * unit)
+                if r in ex:
+                    if excl[2] == "point":
+                        like = t
+                        t = "U%d" % (r + 1)
+                        p = Pt(t, xy[like][0], xy[like][1], M_Z[like], xy="adj", zs=None, ax=False, az=True)
+                        extra.append(p)
+                    else:
+                        err += BLUNDER_M
+                obs.append(Obs(knd, frm=frm, to=t, err=err))
+                elems.append((r, 1))
+            cl = Cluster("obs", obs, frm=frm, cov=band_rows(C, band))
+        elif kind == "height-differences":
+            for r, (f, t) in enumerate(rows):
+                err = _mnoise(atom, r, sd[r] * 1e-3)
+                if r in ex:
+                    err += BLUNDER_M
+                obs.append(Obs("dh", frm=f, to=t, err=err))
+                elems.append((r, 1))
+            cl = Cluster("height-differences", obs, cov=band_rows(C, band))
+        else:
+            for e, ent in enumerate(rows):
+                if kind == "coordinates":
+                    target, cs = ent; nd = len(cs)
+                else:
+                    f, target = ent; cs = "xyz"; nd = 3
+                errs = []
+                for k in range(nd):
+                    er = _mnoise(atom, s + k, sd[s + k] * 1e-3)
+                    if (s + k) in ex:
+                        er += BLUNDER_M
+                    errs.append(er)
+                if kind == "coordinates":
+                    obs.append(Obs("coord", to=target, comps=cs, err=tuple(errs)))
+                else:
+                    obs.append(Obs("vec", frm=f, to=target, err=tuple(errs)))
+                elems.append((s, nd)); s += nd
+            cl = Cluster(kind, obs, cov=band_rows(C, band))
+        tests.append(cl); Cs.append(C); elems_all.append(elems)
+    # uncorrelated backbone: every unknown is determined whatever the atoms are
+    bh = [Obs("dh", frm=f, to=t, stdev=SIG, err=_noise(case_noise0, k, SIG * 1e-3, True))
+          for k, (f, t) in enumerate([("A", "P"), ("B", "Q"), ("A", "Q")])]
+    if case.get("bb", "dist") == "lin":
+        bv = [Obs("vec", frm=f, to=t, err=tuple(_noise(case_noise0, 3 + 3 * k + q, SIG * 1e-3, True) for q in range(3)))
+              for k, (f, t) in enumerate([("A", "P"), ("B", "Q")])]
+        backbone = [Cluster("vectors", bv, cov=band_rows(dense_cov(6, 0, 1), 0)), Cluster("height-differences", bh)]
+    else:
+        bd = [Obs("distance", frm=f, to=t, stdev=SIG, err=_noise(case_noise0, 3 + k, SIG * 1e-3, True))
+              for k, (f, t) in enumerate([("C", "P"), ("C", "Q"), ("B", "P"), ("A", "Q"), ("P", "Q")])]
+        backbone = [Cluster("obs", bd), Cluster("height-differences", bh)]
+    bpos = case.get("bpos", 0)
+    if bpos == 0:
+        clusters = tests + backbone
+    elif bpos == 1:
+        clusters = backbone + tests
+    else:
+        clusters = tests[:1] + backbone + tests[1:]
+    net = Net(pts + extra, clusters, **{"sigma-apr": M0})
+    gnet.fill_values(net)
+    _round_values(net)
+    return {"net": net, "tests": tests, "Cs": Cs, "elems": elems_all, "helpers": [p.id for p in extra], "backbone": backbone}
+
+
+case_noise0 = {"noise": 0}
+
+
+def multi_excluded_rows(case, ai):
+    excl = case.get("excl")
+    if excl is None or excl[0] != ai:
+        return set()
+    return set(multi_groups(case["atoms"][ai])[excl[1]][0])
+
+
+def multi_expected_obs(case, B):
+    """number of observations gama must keep"""
+    n = sum(c.dim() for c in B["backbone"])
+    for ai, atom in enumerate(case["atoms"]):
+        kind, _, rows = MULTI_ATOMS[atom]
+        ex = multi_excluded_rows(case, ai)
+        act = [s for s in range(multi_dim(atom)) if s not in ex]
+        if kind == "obs":
+            if sum(1 for s in act if rows[s][0] == "D") < 2:
+                act = [s for s in act if rows[s][0] != "D"]
+        n += len(act)
+    return n
+
+
+def _multi_index(B, net, ai):
+    """index in net.clusters of the cluster of atom ai (net = copy of B['net'])"""
+    return B["net"].clusters.index(B["tests"][ai])
+
+
+def multi_reform_diag(case, B):
+    """(b) every diagonal matrix written with band >= 1 (forms Z, Zf) replaced
+    by stdev attributes (obs, height-differences) or by the band 0 matrix"""
+    if not any(f in ("Z", "Zf") for f in case["forms"]):
+        return None
+    net = B["net"].copy()
+    for ai, f in enumerate(case["forms"]):
+        if f not in ("Z", "Zf"):
+            continue
+        c = net.clusters[_multi_index(B, net, ai)]
+        C = B["Cs"][ai]
+        if c.kind in ("obs", "height-differences"):
+            for s, o in enumerate(c.obs):
+                o.stdev = float(gnet.fnum(math.sqrt(C[s][s]), 10))
+            c.cov = None
+        else:
+            c.cov = band_rows(C, 0)
+    return net
+
+
+def multi_reform_deleted(case, B):
+    """(c) the excluded group deleted, the matrix replaced by the sub-matrix"""
+    excl = case.get("excl")
+    if excl is None:
+        return None
+    ai = excl[0]
+    ex = multi_excluded_rows(case, ai)
+    net = B["net"].copy()
+    ti = _multi_index(B, net, ai)
+    c = net.clusters[ti]
+    dim = multi_dim(case["atoms"][ai])
+    keep = [s for s in range(dim) if s not in ex]
+    newobs = []
+    for (s0, nd), o in zip(B["elems"][ai], c.obs):
+        ks = [k for k in range(nd) if (s0 + k) not in ex]
+        if not ks:
+            continue
+        if len(ks) < nd:
+            o.comps = "".join(o.comps[k] for k in ks)
+            o.val = tuple(o.val[k] for k in ks)
+        newobs.append(o)
+    c.obs = newobs
+    if not newobs:
+        del net.clusters[ti]
+    else:
+        S = submatrix(B["Cs"][ai], keep)
+        # the band that is written stays the band of the primary input when the
+        # sub-matrix still has that many rows (explicit zeros stay explicit)
+        _, b0 = form_cov(dim, case["forms"][ai])
+        c.cov = band_rows(S, max(bandwidth(S), min(b0, len(keep) - 1)))
+    net.points = [p for p in net.points if p.id not in B["helpers"]]
+    return net
+
+
+def multi_reform_whitened(case, B):
+    """(d) every cluster that repeats ONE quantity replaced by uncorrelated
+    observations l'_i / c_i with standard deviation 1/|c_i| (L^-1 applied to
+    the cluster).  returns (net, [(atom position, Linv, c)]) or None"""
+    if case.get("excl") is not None:
+        return None
+    net = B["net"].copy()
+    done = []
+    for ai, atom in enumerate(case["atoms"]):
+        if not multi_whitenable(atom) or case["forms"][ai] in ("Z", "Zf"):
+            continue                         # a diagonal matrix: that is relation (b)
+        c = net.clusters[_multi_index(B, net, ai)]
+        Li = lower_inverse(chol(B["Cs"][ai]))
+        n = len(c.obs)
+        o0 = c.obs[0]
+        sgn = [1.0 if (o.frm, o.to) == (o0.frm, o0.to) else -1.0 for o in c.obs]
+        cc = [sum(Li[i][j] * sgn[j] for j in range(n)) for i in range(n)]
+        if min(abs(x) for x in cc) < 0.02:
+            continue
+        lp = [sum(Li[i][j] * c.obs[j].val for j in range(n)) for i in range(n)]
+        newobs = []
+        for i in range(n):
+            o = Obs(o0.kind, frm=o0.frm, to=o0.to)
+            o.val = lp[i] / cc[i]
+            o.stdev = 1.0 / abs(cc[i])
+            newobs.append(o)
+        c.obs = newobs
+        c.cov = None
+        done.append((ai, Li, cc, sgn))
+    if not done:
+        return None
+    return net, done
+
+
+def multi_obs_offset(B, net, ai):
+    """index of the first observation of atom ai in the list of adjusted
+    observations (no exclusions)"""
+    ti = _multi_index(B, net, ai)
+    return sum(c.dim() for c in B["net"].clusters[:ti])
